@@ -7,7 +7,7 @@
    `run_events` the model of overlapping requests; fq is the float64 conversion of package time (any
    function satisfying float_quot_ok; the extracted model and the differential run use the exact quotient). *)
 From Coq Require Import Lia.
-From V Require Import C12_Spec C12_Proofs.
+From V Require Import C12_Spec C12_Proofs C12_ProofsR.
 Open Scope Z_scope.
 
 (* ---- the matrix: every announced set-up (648) x every client rendering (756), every test name ---- *)
@@ -250,3 +250,94 @@ Example ex_bidi_h1 :
   | Served _ f _ seen => f = [] /\ proto_major seen = 1 | Rejected => False end /\
   feedback_of (snd (server Z.quot [] ProcBidiStream (with_expect (bs "t") (ex_h1 V2) (render ex_h1_client)))) = [KVersion 2 1].
 Proof. vm_compute. repeat split. Qed.
+
+(* ---- the runner's side (server_runner.go runTestCasesForServer): the headers each request is sent with ---- *)
+
+(* For every batch on every server instance that starts, whatever comes before and after a case in the batch:
+   the request handed to the client for that case carries the case's own headers followed by exactly the headers
+   computed from THAT case (added_headers i c = x-test-case-name, then expectation_headers i c for a reference
+   server) - in the request headers and in the raw request's headers alike - and, read back the way they arrive
+   (names case-insensitive), these describe that case's set-up: its name, HTTP version, method, protocol, codec,
+   compression, and TLS / client certificate as the connection will be. *)
+Theorem expect_headers_per_case : forall i pre c post,
+  starts i = true ->
+  exists s, nth_error (run_batch i (pre ++ c :: post)) (length pre) = Some s /\
+    s_name s = rc_name c /\
+    s_headers s = rc_headers c ++ added_headers i c /\
+    s_raw s = option_map (fun h => h ++ added_headers i c) (rc_raw c) /\
+    (ri_ref i = true -> certs_need_tls i -> own_headers_ok c ->
+       describes (s_headers s) (rc_name c) (case_axes i c) /\
+       (forall raw, s_raw s = Some raw -> describes raw (rc_name c) (case_axes i c))).
+Proof. exact expect_headers_per_case_proof. Qed.
+Print Assumptions expect_headers_per_case.
+
+(* one request per case, in order; an instance that does not start (TLS wanted, no certificate named) sends nothing *)
+Theorem batch_positional : forall i cs,
+  (starts i = true -> length (run_batch i cs) = length cs /\ map s_name (run_batch i cs) = map rc_name cs) /\
+  (starts i = false -> run_batch i cs = []).
+Proof. exact batch_positional_proof. Qed.
+Print Assumptions batch_positional.
+
+(* composition with silent_iff_match: the reference server (any procedure, fresh counters) that receives the
+   runner's headers for a case on a client's rendering `a` writes no feedback exactly when the client rendered
+   that case's set-up - at every position of every batch *)
+Theorem runner_request_silent : forall fq i pre c post s (a : actual) p,
+  ri_ref i = true -> starts i = true -> certs_need_tls i -> own_headers_ok c -> rc_name c <> [] ->
+  nth_error (run_batch i (pre ++ c :: post)) (length pre) = Some s ->
+  (feedback_of (snd (server fq [] p (put_headers (s_headers s) (render a)))) = [] <-> project a = case_axes i c).
+Proof. exact runner_request_silent_proof. Qed.
+Print Assumptions runner_request_silent.
+
+(* in particular the correct reference client (client_rendering: wire shape by protocol, stream type and GET;
+   the case's codec and compression; the instance's TLS) is never flagged *)
+Theorem reference_client_silent : forall fq i pre c post s,
+  ri_ref i = true -> starts i = true -> certs_need_tls i -> own_headers_ok c -> rc_name c <> [] -> get_ok c ->
+  nth_error (run_batch i (pre ++ c :: post)) (length pre) = Some s ->
+  feedback_of (snd (server fq [] (case_procedure c) (put_headers (s_headers s) (render (client_rendering i c))))) = [].
+Proof. exact reference_client_silent_proof. Qed.
+Print Assumptions reference_client_silent.
+
+(* the loop that builds the expectation headers once per batch and refreshes only the method (seeded C12-19)
+   does not have the property: a second case with another codec is described wrongly and the correct client is flagged *)
+Theorem shared_headers_refuted : forall fq,
+  exists i c1 c2 s,
+    ri_ref i = true /\ starts i = true /\ certs_need_tls i /\ own_headers_ok c2 /\ rc_name c2 <> [] /\ get_ok c2 /\
+    nth_error (batch_loop_shared i [c1; c2] None []) 1 = Some s /\
+    ~ describes (s_headers s) (rc_name c2) (case_axes i c2) /\
+    feedback_of (snd (server fq [] (case_procedure c2) (put_headers (s_headers s) (render (client_rendering i c2))))) <> [].
+Proof. exact shared_headers_refuted_proof. Qed.
+Print Assumptions shared_headers_refuted.
+
+(* a batch of four on a TLS instance with client certificates: codec, compression, GET and a raw request differ;
+   the hypotheses of the theorems above hold of it *)
+Definition ex_tls_inst := {| ri_ref := true; ri_use_tls := true; ri_use_certs := true; ri_pem := true; ri_creds := true |}.
+Definition ex_rcase n c z st g raw :=
+  {| rc_name := n; rc_version := V2; rc_protocol := PConnect; rc_codec := c; rc_compression := z; rc_stream := st;
+     rc_get := g; rc_headers := [(bs "X-Own", [bs "v"])]; rc_raw := raw |}.
+Definition ex_batch :=
+  [ ex_rcase (bs "s/a") CProto ZIdentity StUnary false None; ex_rcase (bs "s/b") CJson ZIdentity StUnary true None;
+    ex_rcase (bs "s/c") CProto ZZstd StUnary false (Some [(bs "x-raw", [])]); ex_rcase (bs "s/d") CJson ZIdentity StFullDuplex false None ].
+Example ex_batch_headers :
+  map (fun s => (values_of (bs "x-expect-codec") (s_headers s), values_of (bs "x-expect-compression") (s_headers s),
+                 values_of (bs "x-expect-http-method") (s_headers s), values_of (bs "x-expect-client-cert") (s_headers s)))
+      (run_batch ex_tls_inst ex_batch) =
+  [ ([bs "1"], [bs "1"], [bs "POST"], [c12_client_cert_name]); ([bs "2"], [bs "1"], [bs "GET"], [c12_client_cert_name]);
+    ([bs "1"], [bs "4"], [bs "POST"], [c12_client_cert_name]); ([bs "2"], [bs "1"], [bs "POST"], [c12_client_cert_name]) ].
+Proof. vm_compute. reflexivity. Qed.
+Example ex_batch_ok :
+  starts ex_tls_inst = true /\ certs_need_tls ex_tls_inst /\
+  Forall (fun c => own_headers_ok c /\ get_ok c /\ rc_name c <> []) ex_batch.
+Proof.
+  split; [reflexivity|]. split; [intros _; reflexivity|].
+  repeat constructor; try discriminate; cbn.
+  all: try (intros h [<-|[]]; intros [E|E]; vm_compute in E; discriminate).
+  all: try (intros raw h E; inversion E; subst; intros [<-|[]]; intros [F|F]; vm_compute in F; discriminate).
+  all: try (intros raw h E; discriminate E).
+Qed.
+(* both sides of runner_request_silent at the second position: the GET rendering of the case is silent, a POST is flagged *)
+Example ex_batch_second :
+  let s := nth 1 (run_batch ex_tls_inst ex_batch) {| s_name := []; s_headers := []; s_raw := None |} in
+  let a sh := {| c_version := V2; c_shape := sh; c_codec := CJson; c_compression := ZIdentity; c_tls := TlsCert |} in
+  feedback_of (snd (server Z.quot [] ProcIdempotentUnary (put_headers (s_headers s) (render (a ConnectGet))))) = [] /\
+  feedback_of (snd (server Z.quot [] ProcIdempotentUnary (put_headers (s_headers s) (render (a ConnectUnary))))) = [KMethod (bs "GET") (bs "POST")].
+Proof. vm_compute. split; reflexivity. Qed.
